@@ -41,9 +41,28 @@ def steer_of(case):
     return ""
 
 
+def scope_of(case):
+    """the scope= field of the graph line: in which kind of scope the implementation runs the scripts ('app' when absent)"""
+    for tok in case[0].split():
+        if tok.startswith("scope="):
+            return tok[6:]
+    return "app"
+
+
+def has_clear(case):
+    """some body of the case runs the real pip:clear (command kind c)"""
+    for l in case:
+        if l.startswith("task "):
+            b = l.split()[-1]
+            if b.startswith("b=") and "c" in b[2:].split(","):
+                return True
+    return False
+
+
 def case_key(case):
-    """identity of a case = its header without the case id / seed (the graph itself) + the steering policy"""
-    return steer_of(case) + "|" + "".join(l for l in case if l.split(" ", 1)[0] in ("task", "try", "top"))
+    """identity of a case = its header without the case id / seed (the graph itself) + the steering policy + the scope kind"""
+    sk = scope_of(case)
+    return steer_of(case) + "|" + ("" if sk == "app" else sk + "|") + "".join(l for l in case if l.split(" ", 1)[0] in ("task", "try", "top"))
 
 
 def nontrivial(case):
@@ -170,6 +189,17 @@ def account(ctx, results):
                     ctx.histogram["steer:hold-engaged" if t0 < fate else "steer:fate-seen-before-hold"] += 1
         fails = any(e[1] == "done" and e[-1] == "fail" for e in evs)
         rej = any(e[1] == "rej" for e in evs)
+        sk, clr = scope_of(case), has_clear(case)
+        ctx.histogram["scope:" + sk] += 1
+        if clr:
+            ctx.histogram["scope:" + sk + "+pip:clear"] += 1
+        if sk != "app" or clr:
+            # the runs the scope dimension adds: a try whose body failed and whose handlers were accepted / refused
+            bodies = {l.split()[3].split("=")[1] for l in case if l.startswith("try ")}
+            if any(e[1] == "done" and e[2] in bodies and e[3] == "fail" for e in evs):
+                ctx.histogram["scope:try-body-failed-outside-plain-app-run"] += 1
+                ctx.histogram["scope:…-handlers-accepted"] += sum(1 for e in evs if e[1] == "hacc")
+                ctx.histogram["scope:…-handlers-refused"] += sum(1 for e in evs if e[1] == "hrej")
         ctx.note_case(case_key(case), nontrivial=nt and len(evs) > 4,
                       kind="case:" + ("some-task-failed" if fails else "all-ok") + ("+top-level-rejection" if rej else ""))
         # how many bodies were running at the same time (between a task's first command and its close)
@@ -251,11 +281,12 @@ def genstats(ctx, err_text):
                     ctx.histogram["gen:" + k] += int(v)
 
 
-def run_family(ctx, prop, family, n_quick, n_thorough, corpus_props, steered=None, obligations=None, tie_modules=()):
+def run_family(ctx, prop, family, n_quick, n_thorough, corpus_props, steered=None, obligations=None, tie_modules=(),
+               scoped=None):
     """steered = (n_quick, n_thorough) cases of the steered family c16s (deterministic enumeration of 288 combinations
     per round) or None; obligations = stage 1 of the check (default: the theorems of Props/<prop>.lean; the checks pass
     pipe_tie.obligations, which adds the structural tie Goat.Tie.Pipe<prop>); tie_modules = further modules for the
-    thorough tier's leanchecker"""
+    thorough tier's leanchecker; scoped = (n_quick, n_thorough) cases of family c16x (scope kinds x pip:clear) or None"""
     failed = obligations(ctx) if obligations else ctx.lean_obligations(props_module="Goat.Props." + prop)
     go = ctx.build_go("pipeline")
     model = ctx.build_model("m_pipeline")
@@ -283,6 +314,15 @@ def run_family(ctx, prop, family, n_quick, n_thorough, corpus_props, steered=Non
             ctx.fatal("generator (steered family) failed: " + err[-500:])
         genstats(ctx, err)
         cases += split_cases(gens)
+    nscoped = 0
+    if scoped:
+        nscoped = ctx.pick(*scoped)
+        genx = ctx.path("genx.cases")
+        rc, err = ctx.run([go, "gen", "c16x", str(nscoped)], stdout=genx, timeout=600)
+        if rc != 0:
+            ctx.fatal("generator (scope family) failed: " + err[-500:])
+        genstats(ctx, err)
+        cases += split_cases(genx)
     ctx.rule = ("%d corpus cases (schedule-dependent witnesses `*.rep.ops` repeated 25 / 3000 times) + %d generated task graphs (family %s, VERIF_SEED=%d): random DAGs of 1-16 tasks with wait lists over "
                 "earlier siblings (8%% deliberately invalid: unknown / later / own name), failing commands in any subset of tasks "
                 "(a command that returns an error, an UNKNOWN command name, a TRUNCATED last command; try bodies that STOP their own "
@@ -298,6 +338,14 @@ def run_family(ctx, prop, family, n_quick, n_thorough, corpus_props, steered=Non
                      "handler absent / present / failing x which handler is held at its first command and until when (s, S, f, F) "
                      "= 288 combinations per round): the gate controller holds one handler of the try until it has seen the fate "
                      "of the other, waits 10 s, and records `stall` otherwise" % nsteer)
+    if scoped:
+        ctx.rule += ("; + %d cases of family c16x: c16 graphs, series of 1-3 scripts each with a try block, and steered c16s "
+                     "graphs, run round robin in 8 kinds of scope (scope= on the graph line: the application scope; a session "
+                     "scope of its own from scope.New; a scope.NewChild of the application scope; the real terminal's scope - "
+                     "isolated context, the application's data; and for each of the four the scripts run DIRECTLY by "
+                     "Terminal.RunLoop in the session one after another instead of through Runner.Run, so that the first "
+                     "pipeline command meets a data scope without a task manager), half of them with the real pip:clear (command "
+                     "kind c) in bodies, mostly in front of their first pip:run / pip:try" % nscoped)
     results = run_shards(ctx, go, model, cases, "main")
     account(ctx, results)
     nrej = report_rejects(ctx, go, model, results, prop)
@@ -312,7 +360,8 @@ def run_family(ctx, prop, family, n_quick, n_thorough, corpus_props, steered=Non
     if nsteer:
         # the steered graphs under their steering policy (model `sysS`): sampled support of stall_free /
         # steered_all_finish — every run must be accepted and complete
-        ssample = [c for c, _, _ in results[-nsteer:]][:ctx.pick(100, 2000)]
+        lo = ncorpus + n
+        ssample = [c for c, _, _ in results[lo:lo + nsteer]][:ctx.pick(100, 2000)]
         sruns, sbad, sinc = model_selfrun(ctx, model, ssample)
         ctx.extra["model_selfrun_steered"] = dict(graphs=len(ssample), runs=sruns, rejected=len(sbad), incomplete_runs=sinc)
         bad += sbad
@@ -323,7 +372,7 @@ def run_family(ctx, prop, family, n_quick, n_thorough, corpus_props, steered=Non
     if bad:
         ctx.violation("impl-vs-model", "the compiled Lean model produced a trace its own monitor rejects (contradicts theorem "
                       "model_runs_accepted): %s" % bad[0], concrete=False)
-    ctx.extra["cases"] = dict(corpus=ncorpus, generated=n, steered=nsteer, rejected=nrej)
+    ctx.extra["cases"] = dict(corpus=ncorpus, generated=n, steered=nsteer, scoped=nscoped, rejected=nrej)
     if failed:
         def searcher():
             if nrej:
@@ -347,6 +396,10 @@ def run_family(ctx, prop, family, n_quick, n_thorough, corpus_props, steered=Non
         "pipc.Run / pipc.Try) are emitted where the trace protocol says (harness/cmd/pipeline/drive.go)",
         "sync.WaitGroup, channels and select behave as modelled; RunLoop's select between Done() and the next command is a free choice",
         "lock maps are empty in this campaign (SharedMutex is property C15)",
+        "scope kinds (family c16x): the model's root context is the context of the session scope the case runs in; `mwait` / `fin` "
+        "range over every task manager a submission of the case went into (one, unless a body ran pip:clear or the scripts ran "
+        "directly in a session) and, for scripts run directly by Terminal.RunLoop, over the session's own error; for those scripts "
+        "the harness supplies the envelope of Runner.runGo itself (labelled scope, RunLoop, append the returned error, Wait, Close)",
     ]
     ctx.trusted_base += [
         "PARTIAL level: the theorems are about the orchestration model; that the running system realises it is sampled by "
